@@ -168,6 +168,9 @@ def fam_forced():
                     call("RequireCrossOriginAnonymous", b=False), call("RequireSandboxOnIFrame", vals=["allow-scripts"])])
     recipes.append(base + [call("AllowURLSchemes", schemes=["https"]), call("RequireSandboxOnIFrame", vals=["allow-forms"]),
                            call("RequireCrossOriginAnonymous", b=True)])
+    # crossorigin is forced but not itself allowed; URLs are checked and relative ones rejected (a policy in the class of C20)
+    recipes.append([call("NewPolicy"), AA(["src", "class"], ["img", "audio", "span", "link"]), call("AllowURLSchemes", schemes=["https"]),
+                    call("RequireCrossOriginAnonymous", b=True)])
     alpha = (av("crossorigin", ["anonymous", "use-credentials", ""]) +
              av("sandbox", ["allow-forms", "allow-forms allow-forms", "allow-scripts bogus\tallow-forms", "", "ALLOW-FORMS"]) +
              av("src", ["/x"]) + av("class", ["k"]) + av("onclick", ["x"]))
@@ -269,7 +272,7 @@ def fam_policy():
         return call("AllowStyles", props=list(props), scope=scope, els=list(els), pat=pat, handler=handler, enum=enum, re=re)
     hx = "f:verifharness/h.URLPolExampleHost"
     calls = [
-        call("AllowElements", names=["B", "p"]), call("AllowElements", names=["b"]),
+        call("AllowElements", names=["B", "p"]), call("AllowElements", names=["b"]), call("AllowElements", names=["span", "A"]),
         AA(["class"], ["span"], match="re:^[a-z]+$"), AA(["CLASS"], [], match="re:^[0-9]+$"), AA(["Title"], pat="^custom-", noattrs=True),
         AA([], ["A"], noattrs=True), AA(["href"], ["a"]),
         AS(["color"], "glob"), AS(["COLOR"], "els", els=["Span"], enum="e:red|blue"),
